@@ -74,9 +74,6 @@ Variable PM : N -> Prop.
 Variable PF : N -> Prop.
 Notation GoodN := (GoodN P PM).
 Notation GoodM := (GoodM P).
-Notation Sealed := (Sealed P PM PF).
-Notation irpq := (irpq P PM PF).
-Notation irp := (irp P PM PF).
 Notation OutI := (OutI P).
 Notation OutC := (OutC P).
 
@@ -132,6 +129,12 @@ Proof.
 Qed.
 
 (* ------------------------------------------------------------------ the index primitives *)
+(* declared here: lemmas above must not be generalised over the bounds *)
+Variables L LM LF : N.
+Notation Sealed := (SealedL P PM PF L LM LF).
+Notation irpq := (irpqL P PM PF L LM LF).
+Notation irp := (irpL P PM PF L LM LF).
+
 Lemma irp_add_identifiable m p e : ~ PM m -> ~ P e -> irp (add_identifiable m p e).
 Proof.
   intros Hm He. apply irp_modify_model; auto. intros x Hx. apply GoodM_set_idents; auto.
@@ -197,7 +200,7 @@ Variable LATEST : N.
 Lemma irpq_ro_post {A} (Q : A -> Prop) (c : W A) :
   ro c -> (forall w a, Sealed w -> c w = Val (OK a, w) -> Q a) -> irpq Q c.
 Proof.
-  intros R HQ w r w' S E. pose proof (R _ _ _ E). subst w'. split; [exact S|]. split; [apply Same_refl|].
+  intros R HQ w r w' S E B. pose proof (R _ _ _ E). subst w'. split; [exact S|]. split; [apply Same_refl|].
   intros a ->. eapply HQ; eauto.
 Qed.
 
